@@ -8,6 +8,14 @@ typedef struct {
   int ncaptures;
 } regex_compile_context;
 
+/* upper bound of the program size: nested intervals multiply ((a{1000}){1000}...), so the count saturates instead of
+ * overflowing `int` and such patterns are refused; the VM recursion (vm_add_thread) is bounded by the same number */
+#define REGEX_MAX_INSTRUCTIONS 8192
+
+static int sat(long long n) {
+  return n > REGEX_MAX_INSTRUCTIONS ? REGEX_MAX_INSTRUCTIONS + 1 : (int) n;
+}
+
 static int count_instructions(const cregex_node_t *node) {
   switch (node->type) {
     case REGEX_NODE_TYPE_EPSILON:
@@ -22,18 +30,18 @@ static int count_instructions(const cregex_node_t *node) {
 
     /* Composites */
     case REGEX_NODE_TYPE_CONCATENATION:
-      return count_instructions(node->left) + count_instructions(node->right);
+      return sat((long long) count_instructions(node->left) + count_instructions(node->right));
     case REGEX_NODE_TYPE_ALTERNATION:
-      return 2 + count_instructions(node->left)
-             + count_instructions(node->right);
+      return sat(2LL + count_instructions(node->left)
+                 + count_instructions(node->right));
 
     /* Quantifiers */
     case REGEX_NODE_TYPE_QUANTIFIER: {
-      int num = count_instructions(node->quantified);
+      long long num = count_instructions(node->quantified);
       if (node->nmax >= node->nmin) {
-        return node->nmin * num + (node->nmax - node->nmin) * (num + 1);
+        return sat(node->nmin * num + (node->nmax - node->nmin) * (num + 1));
       }
-      return 1 + (node->nmin ? node->nmin * num : num + 1);
+      return sat(1 + (node->nmin ? node->nmin * num : num + 1));
     }
 
     /* Anchors */
@@ -43,7 +51,7 @@ static int count_instructions(const cregex_node_t *node) {
 
     /* Captures */
     case REGEX_NODE_TYPE_CAPTURE:
-      return 2 + count_instructions(node->captured);
+      return sat(2LL + count_instructions(node->captured));
   }
 
   /* should not reach here */
@@ -100,7 +108,7 @@ static cregex_program_instr_t* compile_char_class(
   const char *sp = node->from;
 
   for ( ; ; ) {
-    int ch = *sp++;
+    int ch = (unsigned char) *sp++;
     switch (ch) {
       case ']':
         if (sp - 1 == node->from) {
@@ -108,12 +116,12 @@ static cregex_program_instr_t* compile_char_class(
         }
         return instruction;
       case '\\':
-        ch = *sp++;
+        ch = (unsigned char) *sp++;
       /* fall-through */
       default:
 CHARACTER:
         if (*sp == '-' && sp[1] != ']') {
-          for ( ; ch <= sp[1]; ++ch) {
+          for ( ; ch <= (unsigned char) sp[1]; ++ch) {
             cregex_char_class_add(instruction->klass, ch);
           }
           sp += 2;
@@ -313,6 +321,9 @@ static int estimate_instructions(const cregex_node_t *root) {
 }
 
 cregex_program_t* cregex_compile_node(const cregex_node_t *root) {
+  if (estimate_instructions(root) > REGEX_MAX_INSTRUCTIONS) {
+    return NULL;
+  }
   size_t size = sizeof(cregex_program_t)
                 + sizeof(cregex_program_instr_t) * estimate_instructions(root);
   cregex_program_t *program;
